@@ -11,6 +11,6 @@ git -C /repo worktree add -q --detach "$scratch" HEAD || exit 3
 trap 'git -C /repo worktree remove --force "$scratch" >/dev/null 2>&1; rm -rf "$scratch"' EXIT
 git -C "$scratch" apply "$root/seeded/$name/patch.diff" || { echo "$name PATCH-DOES-NOT-APPLY"; exit 3; }
 o=$(cd "$root" && VERIF_REPO=$scratch ./check "$id" quick 2>&1); rc=$?
-echo "$name check=$id exit=$rc $(echo "$o" | grep -oE "key=[^ ]+" | sort -u | head -4 | tr '\n' ' ')"
+echo "$name check=$id exit=$rc $(echo "$o" | grep -oE "key=[^ ]+" | sort -u | head -12 | tr '\n' ' ')"
 [ $rc -eq 2 ] && echo "$o" | grep INCONCLUSIVE | head -3
 exit 0
